@@ -74,3 +74,51 @@ def k1_alias_identity(res, tier):
     for f in res.findings:
         if 'alias taken before it grew' in f.key:
             f.replay = F7_REPLAY
+
+
+# ---------------------------------------------------------------------------------------------- K2 any value works as a map key
+F61_SRC = 'let n = 0/0;\nlet m = {};\nm[n] = "first";\nprint(m.has(n));\nm[n] = "second";\nprint(m.len());\n'
+F61_REPLAY = dict(kind='lay', source=F61_SRC, expect_stdout='true\n1\n', note='default (tagged enum) build: NaN as a map key never finds its entry, every write adds an entry')
+
+
+def _mk_key_reflexive(prog, nan):
+    from .c14 import _fresh_value, _install_obj_models, _panic_fail, VALUE
+    from mirsym.engine import Engine
+    suffix = 'boxed' if nan else 'enum'
+
+    @obligation(f'C10.K2.{suffix}.map_key_finds_itself', 'C10', programs=(prog,), also=('C11',))
+    def key_reflexive(res, tier):
+        """the key equality of the hash map (<Value as PartialEq>::eq, real code) is reflexive on every well-formed value and the
+        hash of a value is a function of the value: a value stored as a map key finds its own entry again"""
+        P = get_program(prog)
+        res.bounds = {'values': 'every well-formed Value (every number bit pattern, booleans, nil, any object reference)', 'representation': suffix}
+        res.assumptions = ['the map looks keys up with Value\'s Hash and == (hashbrown contract: an entry is found iff hash and == agree)']
+        e = Engine(P, timeout_s=120)
+        _install_obj_models(e, P, nan)
+        _hasher_models(e)
+        feq = P.lookup('<Value as PartialEq>::eq')
+        fhash = P.lookup('<Value as Hash>::hash')
+
+        def path(e):
+            a, aw = _fresh_value(e, P, nan, 'key')
+            e.assume(z3.Not(aw.is_undef))
+            r = to_z3_bool(e.call(feq, [Ref(Cell(a)), Ref(Cell(e.copy_value(a)))]))
+            nanv = z3.And(aw.is_num, z3.fpIsNaN(aw.num))
+            e.check(z3.Implies(nanv, r), f'{suffix}: a value used as a map key equals itself [NaN]')
+            e.check(z3.Implies(z3.Not(nanv), r), f'{suffix}: a value used as a map key equals itself [every other value]')
+            ha, hb = [], []
+            e.call(fhash, [Ref(Cell(e.copy_value(a))), Ref(Cell(HasherV(ha)))])
+            e.call(fhash, [Ref(Cell(e.copy_value(a))), Ref(Cell(HasherV(hb)))])
+            same = z3.And(*[x == y for x, y in zip(ha, hb)]) if len(ha) == len(hb) and len(ha) > 0 else z3.BoolVal(False)
+            e.check(same, f'{suffix}: hashing a value twice feeds the hasher the same data')
+            return {'fn': 'key ==/hash', 'hash_words': len(ha)}
+        rs = e.explore(path)
+        _panic_fail(res, rs, f'C10.K2.{suffix}:key')
+        summarize_paths(res, e, rs, lambda r: r.info if isinstance(r.info, dict) else None, key_prefix=f'C10.K2:', unwind_ok=False)
+        for fd in res.findings:
+            if '[NaN]' in fd.key and not nan:
+                fd.replay = F61_REPLAY
+
+
+_mk_key_reflexive('core', False)
+_mk_key_reflexive('core-nan', True)
